@@ -262,6 +262,11 @@ func (a *AvahiProvider) attemptReconnect(cb api.MdnsResolveCB, serviceData *mdns
 
 		logging.Log().Debug("mdns: avahi - reconnected")
 
+		// announce what is to be announced now, this may have changed while disconnected
+		a.mux.Lock()
+		serviceData = a.mdnsServiceData
+		a.mux.Unlock()
+
 		if serviceData != nil {
 			if err := a.Announce(serviceData.Name, serviceData.Port, serviceData.Txt); err != nil {
 				logging.Log().Debug("mdns: avahi - error re-announcing service:", err)
